@@ -37,8 +37,12 @@ func queueReplay(args []string) {
 	var f, _ = os.Create(*out)
 	var w = bufio.NewWriter(f)
 	var counts = map[string]int{}
+	var aborted = false
 	for i, sc := range job.Schedules {
-		if counts["drift"] > 20 && counts["drift"]*2 > i {
+		if !aborted && counts["drift"] > 20 && counts["drift"]*2 > i {
+			aborted = true
+		}
+		if aborted {
 			// the schedules are not realisable on this code (the synchronisation
 			// structure differs from the model): every further one costs a timeout
 			counts["skipped"]++
